@@ -1890,7 +1890,11 @@ impl<'a> Socket<'a> {
             // reason is TCP simultaneous open).
             (State::SynReceived, TcpControl::Rst) if self.listen_endpoint.port != 0 => {
                 tcp_trace!("received RST");
-                self.tuple = None;
+                // Forget everything learned from the aborted handshake (peer MSS, window
+                // scale, sequence numbers...), exactly as `listen()` does.
+                let listen_endpoint = self.listen_endpoint;
+                self.reset();
+                self.listen_endpoint = listen_endpoint;
                 self.set_state(State::Listen);
                 return None;
             }
